@@ -30,7 +30,9 @@
 #include <fcppt/enum/make_range.hpp>
 #include <fcppt/enum/make_range_start.hpp>
 #include <fcppt/enum/make_range_start_end.hpp>
+#include <fcppt/enum/iterator_impl.hpp>
 #include <fcppt/enum/range_impl.hpp>
+#include <fcppt/int_iterator_impl.hpp>
 #include <fcppt/iterator/adapt_range.hpp>
 #include <fcppt/iterator/make_range.hpp>
 #include <fcppt/iterator/range_impl.hpp>
@@ -43,7 +45,10 @@
 #include <fcppt/type_iso/strong_typedef.hpp>
 
 #include <cstdint>
+#include <deque>
+#include <iterator>
 #include <limits>
+#include <list>
 #include <set>
 #include <string>
 #include <type_traits>
@@ -62,6 +67,8 @@ std::string b2s(bool b) { return b ? "true" : "false"; }
 FCPPT_MAKE_STRONG_TYPEDEF(std::int8_t, st_i8);
 FCPPT_MAKE_STRONG_TYPEDEF(std::uint8_t, st_u8);
 FCPPT_MAKE_STRONG_TYPEDEF(int, st_i32);
+FCPPT_MAKE_STRONG_TYPEDEF(std::int16_t, st_i16);
+FCPPT_MAKE_STRONG_TYPEDEF(std::uint16_t, st_u16);
 
 template <typename T>
 struct tinfo;
@@ -94,6 +101,8 @@ TINFO(int, "i32", false, int);
 TINFO_ST(st_i8, "i8", std::int8_t);
 TINFO_ST(st_u8, "u8", std::uint8_t);
 TINFO_ST(st_i32, "i32", int);
+TINFO_ST(st_i16, "i16", std::int16_t);
+TINFO_ST(st_u16, "u16", std::uint16_t);
 #undef TINFO_ST
 
 // ------------------------------------------------------------------ integer ranges (values fit TLC)
@@ -116,7 +125,15 @@ void op_int_range(ll b, ll e, bool mk)
     seq.push_back(static_cast<ll>(I::get(*it)));
   }
   ll const size = static_cast<ll>(r.size());
-  vj::end_call(",\"seq\":" + jl(seq) + ",\"capped\":" + b2s(capped) + ",\"size\":" + std::to_string(size) + "}");
+  // fcppt::range::size (std::distance in the iterator's difference type = Int): driven for plain signed
+  // types when the number of elements fits the type
+  ll rsize = -1;
+  if constexpr (std::is_signed_v<T> && !I::st)
+  {
+    ll const cnt = e > b ? e - b : 0;
+    if (cnt <= static_cast<ll>(std::numeric_limits<T>::max())) rsize = static_cast<ll>(fcppt::range::size(r));
+  }
+  vj::end_call(",\"seq\":" + jl(seq) + ",\"capped\":" + b2s(capped) + ",\"size\":" + std::to_string(size) + ",\"rsize\":" + std::to_string(rsize) + "}");
 }
 
 template <typename T>
@@ -260,8 +277,39 @@ enum class e5 : short
   fcppt_maximum = e
 };
 
+enum class e4 : signed char
+{
+  a,
+  b,
+  c,
+  d,
+  fcppt_maximum = d
+};
+enum class e6 : unsigned long long
+{
+  a,
+  b,
+  c,
+  d,
+  e,
+  f,
+  fcppt_maximum = f
+};
+enum class e2 : unsigned short
+{
+  a,
+  b,
+  fcppt_maximum = b
+};
+
 template <typename E>
 char const *ename();
+template <>
+char const *ename<e4>() { return "e4"; }
+template <>
+char const *ename<e6>() { return "e6"; }
+template <>
+char const *ename<e2>() { return "e2"; }
 template <>
 char const *ename<e1>() { return "e1"; }
 template <>
@@ -290,7 +338,8 @@ void op_enum_range(std::string const &via, ll s, ll e)
     }
     seq.push_back(static_cast<ll>(*it));
   }
-  vj::end_call(",\"seq\":" + jl(seq) + ",\"capped\":" + b2s(capped) + ",\"size\":" + std::to_string(sat(static_cast<ull>(r.size()))) + "}");
+  vj::end_call(",\"seq\":" + jl(seq) + ",\"capped\":" + b2s(capped) + ",\"size\":" + std::to_string(sat(static_cast<ull>(r.size()))) + ",\"rsize\":" +
+               std::to_string(sat(static_cast<ull>(fcppt::range::size(r)))) + "}");
 }
 
 template <typename E>
@@ -376,7 +425,8 @@ void op_spiral(ll ox, ll oy, ll d)
     vis += jp(*it);
     ++n;
   }
-  vj::end_call(",\"vis\":" + vis + "],\"capped\":" + b2s(capped) + "}");
+  ll const rsize = capped ? -1 : sat(static_cast<ull>(fcppt::range::size(r)));
+  vj::end_call(",\"vis\":" + vis + "],\"capped\":" + b2s(capped) + ",\"rsize\":" + std::to_string(rsize) + "}");
 }
 
 template <typename T>
@@ -425,6 +475,21 @@ void op_iter_range(int len, int i, int j, std::string const &via)
     walk(fcppt::iterator::range<std::vector<int>::iterator>(cont.begin() + i, cont.begin() + j));
   else if (via == "make_range")
     walk(fcppt::iterator::make_range(ccont.begin() + i, ccont.begin() + j));
+  else if (via == "make_range_list")
+  {
+    std::list<int> const lst(cont.begin(), cont.end());
+    walk(fcppt::iterator::make_range(std::next(lst.begin(), i), std::next(lst.begin(), j)));
+  }
+  else if (via == "make_range_deque")
+  {
+    std::deque<int> dq(cont.begin(), cont.end());
+    walk(fcppt::iterator::make_range(dq.begin() + i, dq.begin() + j));
+  }
+  else if (via == "adapt_list")
+  {
+    std::list<int> lst(cont.begin(), cont.end());
+    walk(fcppt::iterator::adapt_range(lst));
+  }
   else if (via == "adapt")
     walk(fcppt::iterator::adapt_range(cont));
   else
@@ -478,6 +543,91 @@ void static_count_by(ll c)
   case 7: return op_static_count<7>();
   default: throw std::runtime_error("static count not instantiated");
   }
+}
+
+
+// ------------------------------------------------------------------ extension: iterator::base operations
+// random-access operations of cyclic_iterator (through fcppt::iterator::base): two iterators a (at
+// position i) and b (at position j) of the same boundary and a distance n
+void op_cyclic_ra(int len, int i, int j, int n)
+{
+  vj::begin_call(vj::J().kv("f", "cyclic_ra").kv("len", len).kv("i", i).kv("j", j).kv("n", n).s);
+  std::vector<int> cont;
+  for (int k = 0; k < len + 2 * MARGIN; ++k) cont.push_back(1000 + k - MARGIN);
+  using cit = std::vector<int>::const_iterator;
+  using cyc = fcppt::cyclic_iterator<cit>;
+  cit const first = cont.begin() + MARGIN;
+  cyc::boundary const bd{first, first + len};
+  cyc const a(first + i, bd), b(first + j, bd);
+  auto const idx = [&](cyc const &c) { return static_cast<ll>(c.get() - first); };
+  cyc const apn = a + n;
+  cyc const back = apn - n;
+  cyc const npa = n + a;
+  auto const dba = b - a;
+  auto const dab = a - b;
+  cyc const reach = a + dba;
+  cyc pre(a);
+  cyc const &preref = ++pre;
+  cyc post(a);
+  cyc const postold = post++;
+  cyc dec(a);
+  cyc const decold = dec--;
+  cyc s1(a), s2(b);
+  s1.swap(s2);
+  vj::J o;
+  o.kv("base", 1000).kv("apn", idx(apn)).kv("back", idx(back)).kv("npa", idx(npa)).kv("dba", static_cast<ll>(dba)).kv("dab", static_cast<ll>(dab))
+      .kv("reach", idx(reach)).kv("sub", static_cast<ll>(a[n])).kv("deref", static_cast<ll>(*(a + n))).kv("lt", a < b).kv("gt", a > b).kv("le", a <= b)
+      .kv("ge", a >= b).kv("eq", a == b).kv("ne", a != b).kv("pre", idx(pre)).kv("preret", idx(preref)).kv("post", idx(post)).kv("postold", idx(postold))
+      .kv("dec", idx(dec)).kv("decold", idx(decold)).kv("swa", idx(s1)).kv("swb", idx(s2));
+  vj::end_call("," + o.s.substr(1) + "}");
+}
+
+// input-iterator operations of int_iterator<T> (value v) and enum_::iterator<E>
+template <typename T>
+void op_int_iter(ll v, ll w)
+{
+  using I = tinfo<T>;
+  using it_t = fcppt::int_iterator<T>;
+  vj::begin_call(vj::J().kv("f", "int_iter").kv("T", I::name()).kv("st", I::st).kv("v", v).kv("w", w).s);
+  it_t const a(I::make(v)), b(I::make(w));
+  it_t pre(a);
+  it_t const &preref = ++pre;
+  it_t post(a);
+  it_t const postold = post++;
+  it_t s1(a), s2(b);
+  s1.swap(s2);
+  vj::J o;
+  o.kv("deref", static_cast<ll>(I::get(*a))).kv("pre", static_cast<ll>(I::get(*pre))).kv("preret", static_cast<ll>(I::get(*preref)))
+      .kv("post", static_cast<ll>(I::get(*post))).kv("postold", static_cast<ll>(I::get(*postold))).kv("eq", a == b).kv("ne", a != b)
+      .kv("swa", static_cast<ll>(I::get(*s1))).kv("swb", static_cast<ll>(I::get(*s2)));
+  vj::end_call("," + o.s.substr(1) + "}");
+}
+
+template <typename E>
+void op_enum_iter(ll v, ll w)
+{
+  using it_t = fcppt::enum_::iterator<E>;
+  using sz = typename it_t::size_type;
+  ll const n = static_cast<ll>(E::fcppt_maximum) + 1;
+  vj::begin_call(vj::J().kv("f", "enum_iter").kv("E", ename<E>()).kv("n", n).kv("v", v).kv("w", w).s);
+  it_t const a(static_cast<sz>(v)), b(static_cast<sz>(w));
+  it_t pre(a);
+  ++pre;
+  it_t post(a);
+  it_t const postold = post++;
+  vj::J o;
+  o.kv("deref", static_cast<ll>(*a)).kv("postold", static_cast<ll>(*postold)).kv("eq", a == b).kv("ne", a != b)
+      .kv("pre_is_post", pre == post);
+  // the incremented iterator is only dereferenced while it still denotes an enumerator
+  o.kv("pre", v + 1 < n ? static_cast<ll>(*pre) : -1);
+  vj::end_call("," + o.s.substr(1) + "}");
+}
+template <typename E>
+void all_enum_iters()
+{
+  ll const n = static_cast<ll>(E::fcppt_maximum) + 1;
+  for (ll v = 0; v < n; ++v)
+    for (ll w = 0; w < n; ++w) op_enum_iter<E>(v, w);
 }
 
 // ------------------------------------------------------------------ enumeration
@@ -556,6 +706,8 @@ void record(bool thorough)
   edge_ranges<std::uint16_t>();
   edge_ranges<int>();
   edge_ranges<st_i32>();
+  edge_ranges<st_i16>();
+  edge_ranges<st_u16>();
   for (ll b = -4; b <= 4; ++b)
     for (ll e = -4; e <= 4; ++e) op_int_range_rsize(b, e);
   wide_ranges<int>();
@@ -567,10 +719,18 @@ void record(bool thorough)
   all_enum_ranges<e3>();
   all_enum_ranges<e9>();
   all_enum_ranges<e5>();
+  all_enum_ranges<e4>();
+  all_enum_ranges<e6>();
+  all_enum_ranges<e2>();
   // cyclic iterator
   for (int len = 1; len <= 6; ++len)
     for (int start = 0; start < len; ++start)
       for (int n = -20; n <= 20; ++n) op_cyclic(len, start, n);
+  // extension: iterator::base operations
+  for (int len = 1; len <= 5; ++len)
+    for (int i = 0; i < len; ++i)
+      for (int j = 0; j < len; ++j)
+        for (int n = -7; n <= 7; ++n) op_cyclic_ra(len, i, j, n);
   // spiral, neighbours
   ll const origins[][2] = {{0, 0}, {-3, 2}, {5, -7}, {100, -100}, {-1, -1}};
   for (auto const &o : origins)
@@ -597,13 +757,36 @@ void record(bool thorough)
       {
         op_iter_range(len, i, j, "ctor");
         op_iter_range(len, i, j, "make_range");
+        op_iter_range(len, i, j, "make_range_list");
+        op_iter_range(len, i, j, "make_range_deque");
       }
+    op_iter_range(len, 0, len, "adapt_list");
     op_iter_range(len, 0, len, "adapt");
     op_iter_range(len, 0, len, "adapt_const");
   }
   for (ll c : {0, 1, 2, 3, 7}) static_count_by(c);
   ll const sr[][2] = {{0, 0}, {0, 1}, {0, 4}, {2, 5}, {3, 3}, {1, 2}, {4, 9}};
   for (auto const &p : sr) static_range_by(p[0], p[1]);
+  // observed only (outside the statement of C18): the iterators taken by themselves, driven last
+  for (ll v : {-128, -127, -1, 0, 1, 5, 125, 126})
+    for (ll w : {-128, 0, 5, 126, 127})
+    {
+      op_int_iter<std::int8_t>(v, w);
+      op_int_iter<st_i8>(v, w);
+    }
+  for (ll v : {0, 1, 5, 200, 253, 254})
+    for (ll w : {0, 5, 254, 255})
+    {
+      op_int_iter<std::uint8_t>(v, w);
+      op_int_iter<st_u8>(v, w);
+      op_int_iter<int>(v * 1000, w * 1000);
+      op_int_iter<st_i16>(v, w);
+    }
+  all_enum_iters<e1>();
+  all_enum_iters<e3>();
+  all_enum_iters<e9>();
+  all_enum_iters<e4>();
+  all_enum_iters<e6>();
 }
 
 template <typename F>
@@ -611,8 +794,8 @@ void by_type(std::string const &T, bool st, F const &f)
 {
   if (T == "i8") return st ? f(fcppt::tag<st_i8>{}) : f(fcppt::tag<std::int8_t>{});
   if (T == "u8") return st ? f(fcppt::tag<st_u8>{}) : f(fcppt::tag<std::uint8_t>{});
-  if (T == "i16") return f(fcppt::tag<std::int16_t>{});
-  if (T == "u16") return f(fcppt::tag<std::uint16_t>{});
+  if (T == "i16") return st ? f(fcppt::tag<st_i16>{}) : f(fcppt::tag<std::int16_t>{});
+  if (T == "u16") return st ? f(fcppt::tag<st_u16>{}) : f(fcppt::tag<std::uint16_t>{});
   if (T == "i32") return st ? f(fcppt::tag<st_i32>{}) : f(fcppt::tag<int>{});
   throw std::runtime_error("replay: unknown type " + T);
 }
@@ -641,7 +824,23 @@ void replay(vj::V const &v)
     if (E == "e1") op_enum_range<e1>(v.str("via"), v.num("s"), v.num("e"));
     else if (E == "e3") op_enum_range<e3>(v.str("via"), v.num("s"), v.num("e"));
     else if (E == "e9") op_enum_range<e9>(v.str("via"), v.num("s"), v.num("e"));
+    else if (E == "e4") op_enum_range<e4>(v.str("via"), v.num("s"), v.num("e"));
+    else if (E == "e6") op_enum_range<e6>(v.str("via"), v.num("s"), v.num("e"));
+    else if (E == "e2") op_enum_range<e2>(v.str("via"), v.num("s"), v.num("e"));
     else op_enum_range<e5>(v.str("via"), v.num("s"), v.num("e"));
+  }
+  else if (f == "cyclic_ra")
+    op_cyclic_ra(static_cast<int>(v.num("len")), static_cast<int>(v.num("i")), static_cast<int>(v.num("j")), static_cast<int>(v.num("n")));
+  else if (f == "int_iter")
+    by_type(v.str("T"), v.at("st").b, [&]<typename T>(fcppt::tag<T>) { op_int_iter<T>(v.num("v"), v.num("w")); });
+  else if (f == "enum_iter")
+  {
+    std::string const E = v.str("E");
+    if (E == "e1") op_enum_iter<e1>(v.num("v"), v.num("w"));
+    else if (E == "e3") op_enum_iter<e3>(v.num("v"), v.num("w"));
+    else if (E == "e9") op_enum_iter<e9>(v.num("v"), v.num("w"));
+    else if (E == "e4") op_enum_iter<e4>(v.num("v"), v.num("w"));
+    else op_enum_iter<e6>(v.num("v"), v.num("w"));
   }
   else if (f == "cyclic")
     op_cyclic(static_cast<int>(v.num("len")), static_cast<int>(v.num("start")), static_cast<int>(v.num("n")));
